@@ -25,7 +25,7 @@ Grow(q, i, n, style, salt) ==
   IF i > n THEN q ELSE Grow([q EXCEPT ![i] = Pick(Weighted(q, i, style), <<salt, i>>)[1]], i + 1, n, style, salt)
 
 BigInit == \E j \in 1..Instances:
-             /\ k = IF j % 6 \in {4, 5} THEN BigMax - (j \div 6) ELSE Pick(BigMin..BigMax, j)
+             /\ k = IF j % 6 \in {4, 5} THEN BigMax - ((j \div 6) % 10) ELSE Pick(BigMin..BigMax, j)
              /\ p = Grow([i \in 1..k |-> 0], 2, k, j % 6, j)
              /\ zlast = [q |-> "init"]
 
